@@ -257,6 +257,7 @@ func classify(p *Prog, oc *checkOutcome, work string, doReplay bool) {
 		os.WriteFile(path, []byte(text), 0o644)
 		return path
 	}
+	backEdgeCovers := map[string]bool{}
 	for _, rep := range oc.reports {
 		oc.functions = append(oc.functions, rep.Key)
 		for _, t := range rep.Trusted {
@@ -305,6 +306,18 @@ func classify(p *Prog, oc *checkOutcome, work string, doReplay bool) {
 			oc.solverTime += r.Res.Time
 			if r.O.Cover {
 				// vacuity check: must be satisfiable
+				if k := strings.Index(name, "-back-edge:from"); k >= 0 {
+					// a loop with several back edges: some may be legitimately dead (short-circuit re-evaluation of
+					// a deterministic test); the loop is vacuous only if none of its back edges is reachable
+					grp := name[:k]
+					if _, ok := backEdgeCovers[grp]; !ok {
+						backEdgeCovers[grp] = false
+					}
+					if r.Res.Verdict != "unsat" {
+						backEdgeCovers[grp] = true
+					}
+					continue
+				}
 				if r.Res.Verdict == "unsat" {
 					oc.obligations++
 					path := writeNote(name, fmt.Sprintf("obligation: %s\nVacuity check failed: the %s of %s is unsatisfiable (solver %s). Every other obligation of this function would hold vacuously.\n", name, r.O.Kind, fname, r.Res.Solver))
@@ -383,6 +396,21 @@ func classify(p *Prog, oc *checkOutcome, work string, doReplay bool) {
 		} else {
 			path := writeNote(name, fmt.Sprintf("obligation: %s\nlemma not discharged: %s\n%s\n", name, r.Res.Verdict, r.Res.Output))
 			violation(name, "lemma-"+r.Res.Verdict, path, false)
+		}
+	}
+	{
+		var grps []string
+		for g := range backEdgeCovers {
+			grps = append(grps, g)
+		}
+		sort.Strings(grps)
+		for _, g := range grps {
+			if !backEdgeCovers[g] {
+				oc.obligations++
+				name := g + "-back-edge"
+				path := writeNote(name, fmt.Sprintf("obligation: %s\nVacuity check failed: no back edge of this loop is reachable in the encoding, so its invariant-preserved and loop-step obligations hold vacuously.\n", name))
+				violation(name, "vacuous", path, false)
+			}
 		}
 	}
 	for _, sr := range oc.structRes {
